@@ -210,9 +210,18 @@ class WrapperMixin(object):
         """A tab marks a place where a generated line may be continued
         and is removed when the line is written.  In code supplied by
         the user it is white space.
+        The characters which direct write_lines (a leading - + @ ^,
+        a trailing +) are part of the user's code: the line is marked as
+        literal.  A preprocessor line stays in column 1.
         """
-        return [line.expandtabs() if isinstance(line, str) else line
-                for line in lines]
+        out = []
+        for line in lines:
+            if isinstance(line, str):
+                line = line.expandtabs()
+                if line and line[0] != "#" and "\n" not in line:
+                    line = "@" + line
+            out.append(line)
+        return out
 
     def _create_splicer(self, name, out, default=None, force=None):
         """Insert a splicer with *name* into list *out*.
@@ -470,7 +479,8 @@ class WrapperMixin(object):
         if lines[-1] == "" and (len(lines) > 1 or not tag):
             lines.pop()  # remove trailing newline
         for line in lines:
-            output.append(self.doxygen_cont + " " + tag + line)
+            # "@": the text is the user's, a + at its end is not a directive.
+            output.append("@" + self.doxygen_cont + " " + tag + line)
             tag = ""
 
     def document_stmts(self, output, ast, stmt0, stmt1):
